@@ -23,7 +23,7 @@ PROP = dict(
     engines=[dict(
         name="compvec", classify=classify, extra=["--mode", "hist"],
         quick=dict(cases=480, shards=16, profiles=["debug"]),
-        thorough=dict(cases=48000, shards=16, profiles=["debug", "release"]),
+        thorough=dict(cases=12000, shards=16, profiles=["debug", "release"]),
     )],
     extra_targets=["Vec/CvInstProofs.vo"],
     rule="histories: format in {pco,lz4,zstd} and EagerVec wrappers, element type in u8/u16/u32/u64/i64/f32/f64 (+u128,[u8;3] "
